@@ -438,11 +438,7 @@ func (c *Ctx) checkHeaderBlock() {
 	var idx *ssa.Call
 	allInstrs(f, func(in ssa.Instruction) {
 		if call, ok := in.(*ssa.Call); ok && (calleeQ(&call.Call) == "bytes.Index" || calleeQ(&call.Call) == "strings.Index") {
-			sep := c.resolve(call.Call.Args[1])
-			if cv, ok := sep.(*ssa.Convert); ok {
-				sep = cv.X
-			}
-			if s, ok := constStr(sep); ok && s == "\n\n" {
+			if s, ok := c.sepBytes(call.Call.Args[1]); ok && s == "\n\n" {
 				idx = call
 			}
 		}
@@ -577,7 +573,11 @@ func (c *Ctx) checkSingleArm(parser, literal string) {
 			// non-nil result: must be guarded by some found-flag true… counted loosely: at least one bool phi fact
 			if !guardedBy(ret.Block(), func(cond ssa.Value, truth bool) bool {
 				_, isPhi := cond.(*ssa.Phi)
-				return isPhi && truth && isBoolType(cond.Type())
+				ld, isLoad := cond.(*ssa.UnOp)
+				if isLoad && ld.Op != token.MUL {
+					isLoad = false
+				}
+				return (isPhi || isLoad) && truth && isBoolType(cond.Type())
 			}) {
 				okReq = false
 			}
@@ -659,7 +659,7 @@ func (c *Ctx) wordUses(f *ssa.Function) map[string]int {
 		if !ok {
 			return
 		}
-		if call, ok := c.resolve(ia.X).(*ssa.Call); !ok || !strings.HasSuffix(calleeQ(&call.Call), ".Split") {
+		if call, ok := c.resolve(ia.X).(*ssa.Call); !ok || !isWholeSplit(call, k+1) {
 			return
 		}
 		for _, r := range *ia.Referrers() {
@@ -695,6 +695,23 @@ func (c *Ctx) wordUses(f *ssa.Function) map[string]int {
 	return out
 }
 
+// isWholeSplit: call splits its whole argument at every separator, at least
+// as far as `fields` fields are concerned: Split, or SplitN with a limit
+// that is negative or larger than `fields` (so that a surplus field still
+// shows in the length).
+func isWholeSplit(call *ssa.Call, fields int64) bool {
+	q := calleeQ(&call.Call)
+	if strings.HasSuffix(q, ".Split") {
+		return true
+	}
+	if strings.HasSuffix(q, ".SplitN") && len(call.Call.Args) == 3 {
+		if n, ok := constInt(call.Call.Args[2]); ok && (n < 0 || n > fields) {
+			return true
+		}
+	}
+	return false
+}
+
 // splitCountCheck: the constant n in the `len(words) != n` guard.
 func (c *Ctx) splitCountCheck(f *ssa.Function) int {
 	n := -1
@@ -704,8 +721,8 @@ func (c *Ctx) splitCountCheck(f *ssa.Function) int {
 			return
 		}
 		if l, ok := cmp.X.(*ssa.Call); ok && isBuiltin(&l.Call, "len") {
-			if call, ok := c.resolve(l.Call.Args[0]).(*ssa.Call); ok && strings.HasSuffix(calleeQ(&call.Call), ".Split") {
-				if k, ok := constInt(cmp.Y); ok {
+			if call, ok := c.resolve(l.Call.Args[0]).(*ssa.Call); ok {
+				if k, ok := constInt(cmp.Y); ok && isWholeSplit(call, k) {
 					n = int(k)
 				}
 			}
@@ -969,6 +986,112 @@ func (c *Ctx) checkKeyMatcher() {
 	c.judge("C15.scope", "key-matcher", f, t, rows, "prefix matches only at a '.' boundary; the remainder is the key after the boundary")
 }
 
+// walkToCombine follows the control flow from edge (from -> to) to the Combine
+// call `target`, giving every phi the value of the edge it is entered by and
+// taking, at a branch on such a value, the side it decides. It reports the
+// combiner the call is made on and the filter constructor executed on the
+// way.
+func (c *Ctx) walkToCombine(from, to *ssa.BasicBlock, target *ssa.Call, recv ssa.Value, combOf func(ssa.Value) string, kindOf func(ssa.Value) (string, bool)) (comb, kind string, valueOK, reached bool) {
+	env := map[ssa.Value]ssa.Value{}
+	var get func(v ssa.Value) ssa.Value
+	get = func(v ssa.Value) ssa.Value {
+		for i := 0; i < 8; i++ {
+			nv, ok := env[v]
+			if !ok {
+				break
+			}
+			v = nv
+		}
+		return v
+	}
+	evalBool := func(v ssa.Value) (bool, bool) {
+		neg := false
+		for i := 0; i < 4; i++ {
+			v = get(v)
+			if u, ok := v.(*ssa.UnOp); ok && u.Op == token.NOT {
+				neg = !neg
+				v = u.X
+				continue
+			}
+			break
+		}
+		if k, ok := boolConstOf(v); ok {
+			return k != neg, true
+		}
+		return false, false
+	}
+	canReach := reachesBlock(target.Block())
+	prev, cur := from, to
+	kind = ""
+	for steps := 0; steps < 64; steps++ {
+		idx, _ := predIndex(cur, prev)
+		for _, in := range cur.Instrs {
+			switch x := in.(type) {
+			case *ssa.Phi:
+				if idx >= 0 && idx < len(x.Edges) {
+					env[x] = get(x.Edges[idx])
+				}
+			case *ssa.Call:
+				if x == target {
+					return combOf(get(recv)), kind, valueOK, true
+				}
+				if cal := x.Call.StaticCallee(); cal != nil {
+					switch refName(cal) {
+					case "PrefixFilter", "RegexpFilter":
+						if kind != "" && kind != refName(cal) {
+							kind = "?"
+						} else {
+							kind, valueOK = kindOf(x)
+						}
+					}
+				}
+			}
+		}
+		var next *ssa.BasicBlock
+		switch t := cur.Instrs[len(cur.Instrs)-1].(type) {
+		case *ssa.Jump:
+			next = cur.Succs[0]
+		case *ssa.If:
+			if k, ok := evalBool(t.Cond); ok {
+				if k {
+					next = cur.Succs[0]
+				} else {
+					next = cur.Succs[1]
+				}
+			} else {
+				// undecided (an error test): the side that leads to the call
+				for _, sc := range cur.Succs {
+					if canReach[sc] && next == nil {
+						next = sc
+					}
+				}
+			}
+		}
+		if next == nil || !canReach[next] {
+			return "", "", false, false
+		}
+		prev, cur = cur, next
+	}
+	return "", "", false, false
+}
+
+// reachesBlock: the blocks from which t can be reached (t included).
+func reachesBlock(t *ssa.BasicBlock) map[*ssa.BasicBlock]bool {
+	out := map[*ssa.BasicBlock]bool{t: true}
+	work := []*ssa.BasicBlock{t}
+	for len(work) > 0 {
+		b := work[len(work)-1]
+		work = work[:len(work)-1]
+		for _, p := range b.Preds {
+			if !out[p] {
+				out[p] = true
+				work = append(work, p)
+			}
+		}
+	}
+	return out
+}
+
 func (c *Ctx) checkAugment() {
 	// the function that reads a group's own section: calls GetConfig via the Configger interface with a "refgroup.%s" key and switches on entry keys
 	aug := c.augmentFn()
@@ -1024,9 +1147,22 @@ func (c *Ctx) checkAugment() {
 		}
 		if fc != nil && fc.Call.StaticCallee() != nil {
 			kind = refName(fc.Call.StaticCallee())
-			if _, p := c.fieldPath(c.resolve(fc.Call.Args[0])); len(p) > 0 && p[len(p)-1] == "Value" {
-				valueOK = true
+			var isValue func(v ssa.Value, depth int) bool
+			isValue = func(v ssa.Value, depth int) bool {
+				v = c.resolve(v)
+				if phi, isPhi := v.(*ssa.Phi); isPhi && depth < 4 {
+					// the same field read in every arm
+					for _, e := range phi.Edges {
+						if !isValue(e, depth+1) {
+							return false
+						}
+					}
+					return len(phi.Edges) > 0
+				}
+				_, p := c.fieldPath(v)
+				return len(p) > 0 && p[len(p)-1] == "Value"
 			}
+			valueOK = isValue(fc.Call.Args[0], 0)
 		}
 		return
 	}
@@ -1091,6 +1227,48 @@ func (c *Ctx) checkAugment() {
 				}
 				k, vok := kindOf(fv)
 				alts = append(alts, alt{literalOn(pred, pb), combOf(rv), k, vok})
+			}
+		}
+		// the arms may set a combiner and a flag only, the filter being built
+		// after the switch under that flag: walk from each arm to the call,
+		// with the phis taking the values of that arm
+		clean := true
+		for _, a := range alts {
+			if w, known := want[a.lit]; !known || a.comb != w.comb || a.kind != w.kind || !a.valueOK {
+				clean = false
+			}
+		}
+		if !clean {
+			var walked []alt
+			okWalk := true
+			for _, b := range aug.Blocks {
+				for _, sc := range b.Succs {
+					lit := ""
+					for _, f := range factsOnEdge(b, sc) {
+						cond, truth := normCond(f.Cond, f.Truth)
+						if cmp, ok := isCmp(cond, token.EQL, token.NEQ); ok && (cmp.Op == token.EQL) == truth {
+							if l, ok := constStr(cmp.Y); ok {
+								if _, p := c.fieldPath(c.resolve(cmp.X)); len(p) > 0 && p[len(p)-1] == "Key" {
+									lit = l
+								}
+							}
+						}
+					}
+					if lit == "" || lit == "name" {
+						continue
+					}
+					comb, kind, vok, reached := c.walkToCombine(b, sc, call, recv, combOf, kindOf)
+					if !reached {
+						continue
+					}
+					if kind == "?" {
+						okWalk = false
+					}
+					walked = append(walked, alt{lit, comb, kind, vok})
+				}
+			}
+			if okWalk && len(walked) > 0 {
+				alts = walked
 			}
 		}
 		for _, a := range alts {
@@ -1634,6 +1812,34 @@ func (c *Ctx) checkTreeEntryExact() {
 
 // sepByte: v is a one-byte separator: a byte constant, a one-character
 // string constant (possibly converted to []byte), or a literal []byte{c}.
+// sepBytes: the constant bytes of a separator given as a string constant, a
+// conversion of one, or a byte-slice literal.
+func (c *Ctx) sepBytes(v ssa.Value) (string, bool) {
+	sv := c.resolve(v)
+	if cv, ok := sv.(*ssa.Convert); ok {
+		sv = cv.X
+	}
+	if s, ok := constStr(sv); ok {
+		return s, true
+	}
+	vals := c.sliceElemValues(sv)
+	if len(vals) == 0 {
+		return "", false
+	}
+	out := make([]byte, 0, len(vals))
+	for _, e := range vals {
+		if e == nil {
+			return "", false
+		}
+		k, ok := constInt(e)
+		if !ok || k < 0 || k > 255 {
+			return "", false
+		}
+		out = append(out, byte(k))
+	}
+	return string(out), true
+}
+
 func (c *Ctx) sepByte(v ssa.Value) (int64, bool) {
 	if k, ok := constInt(v); ok {
 		return k, true
